@@ -85,6 +85,14 @@ def enterScope (k : ScopeType) : M Unit := do
 def exitScope : M Unit := do
   let _ ← symStep "exit_scope: assertion failed (exiting the global scope)" .exit
 
+/-- `with_scope!(ctx, k, body)`: `enter_scope(k); body; exit_scope()` — the macro has no early
+exit (no `?`/`return` occurs inside any of its uses) -/
+def withScope {α : Type} (k : ScopeType) (body : M α) : M α := do
+  enterScope k
+  let r ← body
+  exitScope
+  pure r
+
 /-- `SymbolTable::current_scope_type` -/
 def currentScopeType : M ScopeType := do
   match (← get).symbolTable.stack with
@@ -351,6 +359,89 @@ def bindTypedParameterList (inparamList : Option Ast.TypedParamList) :
   match inparamList with
   | some pl => do pure (some (← bindTypedParams pl.typedParams))
   | none => pure none
+
+
+/-! ### the decision blocks of the usage rules (C13), factored out of their functions
+
+Each is the literal block of the Rust function named in its comment, applied to values that
+function has already computed; none of them recurses. -/
+
+/-- `if !context.symbol_table().in_global_scope() { insert_error(NotInGlobalScopeError, node) }`
+(QuantumDeclarationStatement, Def, and classical array declarations) -/
+def notGlobalCheck (node : Ast.Span) : M Unit := do
+  if !(← inGlobalScope) then insertError .notInGlobalScopeError node
+
+/-- the same test in the `Gate` arm, where the node is `gate.name().unwrap()` evaluated only on
+the error path -/
+def gateNotGlobalCheck (name : Option Ast.Name) : M Unit := do
+  if !(← inGlobalScope) then
+    let n ← unwrap "stmt_to_asg_stmt: Gate name() is None" name
+    insertError .notInGlobalScopeError n.span
+
+/-- `ReturnExpr` arm of `expr_to_asg_texpr`:
+`if current_scope_type() == Global { insert_error(ReturnInGlobalScopeError, &expr) }` -/
+def returnGlobalCheck (node : Ast.Span) : M Unit := do
+  if (← currentScopeType) == .global then insertError .returnInGlobalScopeError node
+
+/-- `DelayStmt` arm: `if !matches!(duration.get_type(), Type::Duration(_)) { insert_error(..) }` -/
+def delayDurationCheck (duration : TExpr) (designator : Ast.Span) : M Unit :=
+  match duration.getType with
+  | .duration _ => pure ()
+  | _ => insertError .incompatibleTypesError designator
+
+/-- `BinExpr` arm of `expr_to_asg_texpr`: "there are no binary ops that accept quantum operands" -/
+def quantumBinopCheck (left right : TExpr) (lhs rhs : Option Ast.Expr) : M Unit := do
+  if isQuantum left.getType then
+    let l ← unwrap "expr_to_asg_texpr: bin_expr.lhs() is None" lhs
+    insertError .incompatibleTypesError l.span
+  if isQuantum right.getType then
+    let r ← unwrap "expr_to_asg_texpr: bin_expr.rhs() is None" rhs
+    insertError .incompatibleTypesError r.span
+
+/-- `gate_operand_to_asg_texpr`, `Identifier` arm:
+`if !matches!(typ, Qubit | HardwareQubit | QubitArray(_)) { insert_error(..) }` -/
+def gateOperandIdentCheck (typ : T) (node : Ast.Span) : M Unit :=
+  match typ with
+  | .qubit | .hwqubit | .qubitArray _ => pure ()
+  | _ => insertError .incompatibleTypesError node
+
+/-- `gate_operand_to_asg_texpr`, `IndexedIdentifier` arm: `if !matches!(typ, QubitArray(_)) {..}` -/
+def gateOperandIndexedCheck (typ : T) (node : Ast.Span) : M Unit :=
+  match typ with
+  | .qubitArray _ => pure ()
+  | _ => insertError .incompatibleTypesError node
+
+/-- the arity / not-a-gate block of `gate_call_expr_to_asg_stmt` (after the operands, the
+parameters and the gate symbol have been evaluated) -/
+def gateCallCheck (span : Ast.Span) (qubitList : Option Ast.QubitList) (argList : Option Ast.ArgList)
+    (gateId : Ast.Identifier) (symbolResult : SymbolIdResult) (gateType : T)
+    (numParams numQubits : Nat) : M Unit :=
+  match gateType with
+  | .gate defNumParams defNumQubits => do
+    if defNumParams != numParams then
+      if numParams != 0 then
+        let al ← unwrap "gate_call_expr_to_asg_stmt: arg_list() is None" argList
+        insertError .numGateParamsError al.span
+      else
+        insertError .numGateParamsError gateId.span
+    if defNumQubits != numQubits then
+      if numQubits == 0 then
+        insertError .numGateQubitsError span
+      else
+        let ql ← unwrap "gate_call_expr_to_asg_stmt: qubit_list() is None" qubitList
+        insertError .numGateQubitsError ql.span
+  | _ =>
+    if symbolResult.isOk then insertError .incompatibleTypesError gateId.span else pure ()
+
+/-- the arity block of `call_expr_to_asg_texpr` (callee known to be a subroutine) -/
+def defArityCheck (expectedNumParams numParams : Nat) (argList : Option Ast.ArgList) : M Unit := do
+  if expectedNumParams != numParams then
+    let al ← unwrap "call_expr_to_asg_texpr: arg_list() is None" argList
+    insertError .numDefParamsError al.span
+
+/-- the last block of the identifier branch of `assignment_stmt_to_asg_stmt` -/
+def mutateConstCheck (symbolOk : Bool) (symbolType : T) (node : Ast.Span) : M Unit := do
+  if symbolOk && isConst symbolType then insertError .mutateConstError node
 
 /-- the `asg::TimeUnit` of a non-imaginary `ast::TimeUnit` -/
 def timeUnitToAsg : TokenExt.TimeUnit → Option TimeUnit
